@@ -608,8 +608,8 @@ def hist_stage_b(ctx, pool):
         steps = [(a,) + tuple(args) for a, args, _ in path]
         if not any(s_[0] == 'Issue' for s_ in steps):
             continue
-        # every path on every signer class in thorough; round-robin over the classes in quick
-        kinds = SIGNER_KINDS if not ctx.quick else [SIGNER_KINDS[k % len(SIGNER_KINDS)], SIGNER_KINDS[(k + 3) % len(SIGNER_KINDS)]]
+        # two signer classes per path, round-robin (thorough enumerates all four issuing functions and longer paths)
+        kinds = [SIGNER_KINDS[k % len(SIGNER_KINDS)], SIGNER_KINDS[(k + 3) % len(SIGNER_KINDS)]]
         for kind in kinds:
             h, cs = run_history(ctx, kind, g.state[init]['loc'], steps, shapes, pool, 'B')
             # the certificates' locators must be the ones in TLC's state after the path
